@@ -70,6 +70,13 @@ func (R *Repository) AddCRL(crlLocations *core.CRLLocations, chains *core.Certif
 		return false, err
 	}
 	verifhook.Hit("repo.add.entry", R, identifier, crlAdded)
+	if crlAdded {
+		//remember where the crl comes from, loading in background and later updates need the locations
+		err = R.storeCRLLocations(entry, crlLocations)
+		if err != nil {
+			return crlAdded, err
+		}
+	}
 	if R.crlConfig.CDPConfig.CRLFetchModeParsed == config.CRLFetchModeActively {
 		if R.isEntryLoaded(entry) == false {
 			return crlAdded, R.loadActively(entry, chains, crlLocations)
@@ -86,6 +93,12 @@ func (R *Repository) AddCRL(crlLocations *core.CRLLocations, chains *core.Certif
 		R.tryUpdateSignatureCertFromChain(entry, chains)
 	}
 	return crlAdded, nil
+}
+
+func (R *Repository) storeCRLLocations(entry *Entry, crlLocations *core.CRLLocations) error {
+	entry.entryLock.Lock()
+	defer entry.entryLock.Unlock()
+	return entry.CRLStore.UpdateCRLLocations(crlLocations)
 }
 
 func (R *Repository) isEntryLoaded(entry *Entry) bool {
@@ -542,6 +555,10 @@ func (R *Repository) UpdateCRL(crlLocations *core.CRLLocations, chains *core.Cer
 	}
 	entry := R.getEntrySync(identifier)
 	if entry != nil {
+		if R.isEntryLoaded(entry) == false {
+			//not loaded yet (fetch_background), there is nothing to update: load it now
+			return R.loadActively(entry, chains, crlLocations)
+		}
 		err := R.updateCrlEntry(entry, chains)
 		if err != nil {
 			return err
